@@ -1301,6 +1301,162 @@ def real_strategy(tier: str):
 
 
 # ---------------------------------------------------------------------------
+# family: text-mode file objects (real server)
+
+TEXT_ALPHA = ['a', 'b', '\n', 'é', 'ß', '€', '中', '\U0001f600']
+
+
+def run_text(case) -> CaseResult:
+    """SFTPClientFile opened WITHOUT 'b' (text mode, utf-8 or latin-1 or
+    utf-16-le): sequences of write(str) at the implicit position, write(str,
+    offset), seek/tell, then read back.  Model: Python text-file-over-bytes
+    semantics in BYTES (offsets and return values are byte counts: "returns:
+    number of bytes written"); the file on the server equals the model"""
+
+    enc = case['enc']
+    mode = case['mode']
+    version = case['version']
+    labels = {'mode:' + mode, 'enc:' + enc, 'v%d' % version}
+    tmp = tempfile.mkdtemp(prefix='c12t-')
+    root = os.path.join(tmp, 'root')
+    os.mkdir(root)
+    init = ''.join(TEXT_ALPHA[i % 3] for i in range(case['init']))
+    content = bytearray(init.encode(enc))
+
+    with open(os.path.join(root, 'file'), 'wb') as f:
+        f.write(content)
+
+    if 'w' in mode:
+        content = bytearray()
+
+    class Server(asyncssh.SFTPServer):
+        def __init__(self, chan):
+            super().__init__(chan, chroot=root.encode())
+
+    pair = memwire.Pair({'sftp_factory': Server, 'sftp_version': version})
+
+    try:
+        pair.handshake()
+        sftp = start_client(pair, version)
+        kw = {'encoding': enc}
+
+        if case['bs'] is not None:
+            kw['block_size'] = case['bs']
+            kw['max_requests'] = case['mr']
+
+        async def opener():
+            return await sftp.open('file', mode, **kw)
+
+        f = pair.h.run(opener())
+        append = 'a' in mode
+        pos: Any = None if append else 0
+        nwrites = 0
+
+        for op in case['ops']:
+            if op[0] == 'w':
+                text = ''.join(TEXT_ALPHA[i % len(TEXT_ALPHA)]
+                               for i in op[1])
+                if enc == 'latin-1':
+                    text = ''.join(c for c in text if ord(c) < 256)
+                data = text.encode(enc)
+                off = op[2]
+
+                if len(data) != len(text):
+                    labels.add('multibyte')
+
+                if off is None and pos is None and not append:
+                    continue
+
+                try:
+                    ret = pair.h.run(f.write(text) if off is None
+                                     else f.write(text, off))
+                except memwire.Stuck:
+                    raise Violation('hang', 'write never completed',
+                                    'hang:text-write') from None
+
+                if ret != len(data):
+                    raise Violation('result', 'write(%r) returned %r, the '
+                                    'text encodes to %d bytes (documented: '
+                                    'number of bytes written)' %
+                                    (text, ret, len(data)),
+                                    'text:write-return')
+
+                if append:
+                    content += data
+                else:
+                    at = pos if off is None else off
+                    # (a zero-length write beyond the end extends nothing)
+                    if data and at > len(content):
+                        content += bytes(at - len(content))
+                    if data:
+                        content[at:at + len(data)] = data
+                    # (after a write at an explicit offset the position is
+                    # not specified: wait for the next seek)
+                    pos = at + len(data) if off is None else None
+
+                nwrites += 1
+
+                if off is None and nwrites >= 2:
+                    labels.add('consecutive-implicit-writes')
+            elif op[0] == 'seek' and not append:
+                at = min(op[1], len(content))
+                pair.h.run(f.seek(at))
+                pos = at
+            elif op[0] == 'tell' and pos is not None:
+                got = pair.h.run(f.tell())
+                if got != pos:
+                    raise Violation('position', 'tell() = %r, model position '
+                                    '%d bytes' % (got, pos), 'text:tell')
+
+        pair.h.run(f.close())
+        got_bytes = read_local(os.path.join(root, 'file'))
+        check_bytes(got_bytes, bytes(content), 'text-mode file (%s, %s)' %
+                    (mode, enc), 'data-mismatch:text-file', None)
+
+        # read back through a text-mode file object: the whole text
+        async def readback():
+            async with sftp.open('file', 'r', encoding=enc) as g:
+                return await g.read()
+
+        try:
+            want = bytes(content).decode(enc)
+        except UnicodeDecodeError:
+            want = None          # an offset write cut a character
+
+        if want is not None:
+            back = pair.h.run(readback())
+            if back != want:
+                raise Violation('data-mismatch', 'text read() returned %d '
+                                'characters, file holds %d' %
+                                (len(back), len(want)), 'text:readback')
+            labels.add('read-back')
+
+        return CaseResult(sorted(labels), 'multibyte' in labels and
+                          'consecutive-implicit-writes' in labels)
+    finally:
+        pair.close()
+        shutil.rmtree(tmp, ignore_errors=True)
+
+
+def text_strategy(tier: str):
+    chars = st.lists(st.integers(0, 7), min_size=0, max_size=12)
+    op = st.one_of(
+        st.tuples(st.just('w'), chars, st.none()).map(list),
+        st.tuples(st.just('w'), chars, st.none()).map(list),
+        st.tuples(st.just('w'), chars, st.none()).map(list),
+        st.tuples(st.just('w'), chars, st.integers(0, 40)).map(list),
+        st.tuples(st.just('seek'), st.integers(0, 40)).map(list),
+        st.just(['tell']))
+    return st.fixed_dictionaries({
+        'enc': pick(['utf-8', 'utf-8', 'utf-16-le', 'latin-1']),
+        'mode': pick(['w', 'w+', 'r+', 'a', 'a+']),
+        'version': pick([3, 4, 5, 6]),
+        'init': pick([0, 5, 30]),
+        'bs': pick([None, 4, 16384]), 'mr': pick([1, 3, 128]),
+        'ops': st.lists(op, min_size=1, max_size=8)})
+
+
+# ---------------------------------------------------------------------------
 # family 4: OpenSSH sftp client against an asyncssh listener (real sockets)
 
 class _NoAuthServer(asyncssh.SSHServer):
@@ -1474,6 +1630,11 @@ FAMILIES = [
                              'copy-data>256k', 'v3', 'v4', 'v5', 'v6',
                              'ranges-batches>=3',
                              'ranges-batches>=3:real-batch-size']},
+           timeout_is_violation=True, case_timeout=120),
+    Family('text-file', run_text, strategy=text_strategy,
+           budget={'quick': 320, 'thorough': 5000},
+           required={'all': ['multibyte', 'consecutive-implicit-writes',
+                             'read-back', 'mode:a', 'mode:r+', 'mode:w']},
            timeout_is_violation=True, case_timeout=120),
     Family('openssh-sftp', run_openssh, strategy=openssh_strategy,
            budget={'quick': 40, 'thorough': 240},
